@@ -18,7 +18,8 @@ from props import _c07_common as common
 ID = "C07"
 RULE = ("Stochastic model programs with pub/sub fan-out: C02-style handlers + random delays and observations drawn "
         "from shared seeded streams + handlers that fire one of 4 bus event types to <=5 listeners subscribed in a "
-        "generated order, whose notify scripts draw from the shared streams, schedule events, make observations and "
+        "generated order (seeds installed directly or through a StreamSeedUpdater with a seed table and a user-defined "
+        "order-sensitive fallback updater), whose notify scripts draw from the shared streams, schedule events, make observations and "
         "subscribe/unsubscribe listeners (handlers do so too). "
         "(i) in-process (Hypothesis): each program is run plain, with a stop()/start() pause after event k, with a "
         "bounded run, after unrelated prior activity, and as the second replication on the same simulator, model and "
@@ -31,7 +32,7 @@ RULE = ("Stochastic model programs with pub/sub fan-out: C02-style handlers + ra
 ASSUMPTIONS = [
     "START/STOP/STARTING/STOPPING notifications legitimately depend on where the run is paused and are excluded from "
     "the digest; a TIME_CHANGED value announced again after a pause counts once",
-    "independence of wall-clock speed is covered only through pauses/segmentation and CPU contention of parallel children",
+    "independence of wall-clock speed is covered through pauses/segmentation, CPU contention of parallel children and a slow (yielding) vs. fast STARTING listener",
     "single steps are not used as pause mechanism here (step() announces TIME_CHANGED unconditionally by design)",
 ]
 NONTRIVIAL_FLOOR = 0.05
@@ -98,7 +99,15 @@ def case_strategy(tier):
                 listeners[li]["script"] = [["rel_rand", draw(st.integers(0, 5)), scale, sink, draw(PRIO)]] + \
                     listeners[li]["script"][:2]
             order = [[0, t], [1, t]] + order
-        return {"prog": prog, "bus": {"listeners": listeners, "order": order}, "seeds": seeds,
+        upd = None
+        if draw(st.booleans()):
+            names = draw(st.lists(st.sampled_from(["default", "arrivals", "service", "routing", "x", "Y", "stream-\u00e9",
+                                                   "a" * 40, "", "0", "failures", "repair"]),
+                                  min_size=3, max_size=6, unique=True))
+            upd = {"names": names, "r": draw(st.integers(0, 4)), "master": draw(st.integers(0, 1000))}
+            while len(seeds) < 3:
+                seeds.append(draw(st.integers(0, 50)))
+        return {"prog": prog, "bus": {"listeners": listeners, "order": order}, "seeds": seeds, "updater": upd,
                 "k": draw(st.integers(1, 25)), "frac": draw(st.integers(1, 9)), "prior": draw(st.sampled_from([0, 50, 300]))}
     return case()
 
@@ -192,6 +201,12 @@ def run_case(case):
         if d != plain:
             out.fail("digest-differs-" + name, _first_diff(plain, d))
             break
+    if not out.disc:
+        # the speed of a STARTING listener (wall-clock speed of user code) must not change the run
+        fast = common.run_program(case, ["fast-listener", 0])
+        slow = common.run_program(case, ["slow-listener", 25])
+        if fast != slow:
+            out.fail("digest-differs-slow-starting-listener", _first_diff(fast, slow))
     del keep
     if case.get("xproc"):
         v = cross_process([case], [("0", 0, ["plain"]), ("1", 300, ["pause", case["k"]]),
